@@ -63,3 +63,45 @@ KERNELS = [
     K("src_tune_store_trial", "src/machine/tune.cpp",
       r"result\.store\((.*?),\s*fold,", [], [("old_trials", "Z"), ("trial", "Z")], "mlresult", ["C11", "C18"]),
 ]
+
+# ---- extension "assemble": the model-assembly block of gboost_model_t::fit (src/gboost/model.cpp) -------------------
+_ASM = r"ml::result_t\s+gboost_model_t::fit\s*\("
+KERNELS += [
+    # `const auto denom = 1.0 / static_cast<scalar_t>(folds);` -- numerator and denominator of the rational factor
+    K("src_asm_denom_num", "src/gboost/model.cpp",
+      _ASM + r".*?const auto denom\s*=\s*(.*?)\s*/\s*static_cast<scalar_t>\(",
+      [(r"^1\.0$", "1")], [], "asm", ["C11"]),
+    K("src_asm_denom_den", "src/gboost/model.cpp",
+      _ASM + r".*?const auto denom\s*=\s*[^;/]*/\s*static_cast<scalar_t>\((.*?)\);",
+      [], [("folds", "Z")], "asm", ["C11"]),
+    # `for (tensor_size_t fold = 0; fold < folds; ++fold)` -- the loop over the fold models of the optimum trial
+    K("src_asm_fold_first", "src/gboost/model.cpp",
+      _ASM + r".*?for\s*\(tensor_size_t fold\s*=\s*([^;]*?);", [], [], "asm", ["C11"]),
+    K("src_asm_fold_cont", "src/gboost/model.cpp",
+      _ASM + r".*?for\s*\(tensor_size_t fold\s*=[^;]*;\s*([^;]*?);", [], [("fold", "Z"), ("folds", "Z")], "asm", ["C11"]),
+    K("src_asm_fold_step", "src/gboost/model.cpp",
+      _ASM + r".*?for\s*\(tensor_size_t fold\s*=[^;]*;[^;]*;\s*([^;{]*?)\)\s*\{",
+      [(r"^\+\+fold$", "fold + 1"), (r"^fold\+\+$", "fold + 1")], [("fold", "Z")], "asm", ["C11"]),
+    # `fit_result.extra(optimum_trial, fold)` -- which stored fold model is read
+    K("src_asm_extra_trial", "src/gboost/model.cpp",
+      _ASM + r".*?std::any_cast<gboost::result_t>\(&fit_result\.extra\(([^,]*?),", [],
+      [("optimum_trial", "Z"), ("fold", "Z")], "asm", ["C11"]),
+    K("src_asm_extra_fold", "src/gboost/model.cpp",
+      _ASM + r".*?std::any_cast<gboost::result_t>\(&fit_result\.extra\([^,]*?,\s*([^()]*?)\)\)", [],
+      [("optimum_trial", "Z"), ("fold", "Z")], "asm", ["C11"]),
+    # what is between the bias reset and the fold loop: `m_wlearners.clear();` keeps 0 of the n learners of the previous
+    # fit (n * 0); if the statement is dropped the kernel reads n * 1 (all of them stay)
+    K("src_asm_reset_size", "src/gboost/model.cpp",
+      _ASM + r".*?m_bias\s*=\s*make_full_tensor<scalar_t>\([^;]*\);(.*?)for\s*\(tensor_size_t fold",
+      [(r"\(\s*m_wlearners\.clear\(\);\s*\)", "(0)"), (r"\(\s*\)", "(1)")], [("n", "Z")], "asm", ["C11"], wrap="n * ({})"),
+    # ::fit (anonymous namespace): `result.done(static_cast<tensor_size_t>(optimum.round()));` -- the cut-back index
+    K("src_fit_done_round", "src/gboost/model.cpp",
+      r"result\.done\((.*?)\);",
+      [(r"static_cast<tensor_size_t>\(optimum\.round\(\)\)", "round"), (r"optimum\.round\(\)", "round")],
+      [("round", "Z")], "asm", ["C11"]),
+    # do_predict: `outputs...rowwise() = m_bias.vector().transpose();` -- how much of the previous contents of the row survives:
+    # `=` keeps 0 times the old row, `+=` would keep it once
+    K("src_predict_keep_prev", "src/gboost/model.cpp",
+      r"void gboost_model_t::do_predict\(.*?\{\s*outputs\.reshape\(samples\.size\(\),\s*-1\)\.matrix\(\)\.rowwise\(\)\s*(\S+)\s*m_bias\.vector\(\)\.transpose\(\);",
+      [(r"^=$", "0"), (r"^\+=$", "1")], [], "asm", ["C11"]),
+]
